@@ -3014,14 +3014,14 @@ V(id='c24-rs-zeta-float-overflow-escapes', prop='C24', file='mpmath/functions/rs
   old="    except OverflowError:\n        # (the error estimates are made with floats, which cannot hold\n        # 9**sigma far from the critical line: the callers fall back)\n        raise NotImplementedError(\"Riemann-Siegel can not compute with such sigma\")\n",
   new="", expect='fire:T-R15:rs_zeta')
 V(id='c24-rs-z-float-overflow-escapes', prop='C24', file='mpmath/functions/rszeta.py',
-  old="            return z_offline(ctx, w, derivative)\n    except OverflowError:\n        raise NotImplementedError(\"Riemann-Siegel can not compute with such sigma\")\n",
-  new="            return z_offline(ctx, w, derivative)\n", expect='fire:T-R15:rs_z')
+  old="            v = z_offline(ctx, w, derivative)\n    except OverflowError:\n        raise NotImplementedError(\"Riemann-Siegel can not compute with such sigma\")\n",
+  new="            v = z_offline(ctx, w, derivative)\n", expect='fire:T-R15:rs_z')
 V(id='c24-rs-z-overflow-reraised-as-undocumented', prop='C24', file='mpmath/functions/rszeta.py',
-  old="            return z_offline(ctx, w, derivative)\n    except OverflowError:\n        raise NotImplementedError(\"Riemann-Siegel can not compute with such sigma\")\n",
-  new="            return z_offline(ctx, w, derivative)\n    except OverflowError:\n        raise ArithmeticError(\"sigma too large\")\n", expect='fire:T-R15:rs_z')
+  old="            v = z_offline(ctx, w, derivative)\n    except OverflowError:\n        raise NotImplementedError(\"Riemann-Siegel can not compute with such sigma\")\n",
+  new="            v = z_offline(ctx, w, derivative)\n    except OverflowError:\n        raise ArithmeticError(\"sigma too large\")\n", expect='fire:T-R15:rs_z')
 V(id='c24-benign-rs-z-overflow-as-valueerror', prop='C24', file='mpmath/functions/rszeta.py',
-  old="            return z_offline(ctx, w, derivative)\n    except OverflowError:\n        raise NotImplementedError(\"Riemann-Siegel can not compute with such sigma\")\n",
-  new="            return z_offline(ctx, w, derivative)\n    except ArithmeticError:\n        raise ValueError(\"sigma too large\")\n", expect='silent')
+  old="            v = z_offline(ctx, w, derivative)\n    except OverflowError:\n        raise NotImplementedError(\"Riemann-Siegel can not compute with such sigma\")\n",
+  new="            v = z_offline(ctx, w, derivative)\n    except ArithmeticError:\n        raise ValueError(\"sigma too large\")\n", expect='silent')
 
 # ---- C24 T-R16 (fourth hunt; fix a950b2b) ----
 V(id='c24-rs-term-count-unbounded', prop='C24', file='mpmath/functions/rszeta.py',
